@@ -316,7 +316,7 @@ def _string_template_helper(fn: ast.FunctionDef) -> bool:
     return len(body) == 1 and isinstance(body[0], ast.Return)
 
 
-def formatter_returns(repo: Repo, relsfx: str, cls: str, meth: str, braces: bool = False, inline: Optional[Callable[[str], bool]] = None) -> List[str]:
+def formatter_returns(repo: Repo, relsfx: str, cls: str, meth: str, braces: bool = False, inline: Optional[Callable[[str], bool]] = None, string_helpers: bool = False) -> List[str]:
     """Texts a formatter method can return (one per path), holes replaced by
     the source-like rendering of their values; `format_*` methods stay
     opaque (they are the vocabulary provenance is judged in), private helpers
@@ -328,7 +328,7 @@ def formatter_returns(repo: Repo, relsfx: str, cls: str, meth: str, braces: bool
     fi = m.lookup(c, meth)
     if fi is None:
         raise Inconclusive(f"{cls}.{meth} vanished")
-    flow = compiler_flow(repo, cls, relsfx, module_funcs=True, inline=(lambda name, fn: inline(name)) if inline is not None else (lambda name, fn: not name.startswith("format_") or _string_template_helper(fn)), max_depth=8)
+    flow = compiler_flow(repo, cls, relsfx, module_funcs=True, inline=(lambda name, fn: inline(name)) if inline is not None else (lambda name, fn: not name.startswith("format_") or (string_helpers and _string_template_helper(fn))), max_depth=8)
     out: List[str] = []
     for p_ in flow.run(fi.node, {"self": V("self")}):
         if p_.done != "return" or p_.ret is None:
